@@ -6,7 +6,7 @@
    The same predicates are TLC invariants of the model-checking configurations (applied to the
    model's predicted result) and the acceptance condition of trace validation (applied to results
    observed from the real library). *)
-EXTENDS Dom, Api, Wrap, Tree
+EXTENDS Render
 
 Dom1(c, run) == c.doms[run.d]
 MetaGet(c, f, dflt) == IF f \in DOMAIN c.meta THEN c.meta[f] ELSE dflt
@@ -247,6 +247,7 @@ MarkersOf(res) ==
                          ELSE IF IsLetterCode(x[1]) THEN [a EXCEPT !.n = @ + 1] ELSE a,
            [n |-> 0, out |-> <<>>], Concat(res.lines)).out
 P_C14(c) ==
+  (c.runs[1].route \notin {"lines", "staged_lines"}) \/
   LET a == c.runs[1]
       dom == Dom1(c, a)
       ids == IdInfoSeq(dom, 0).out
@@ -255,13 +256,198 @@ P_C14(c) ==
       tableFree == ~HasTable(dom) IN
   /\ IsOk(a) =>
        \* exactly one marker per id with visible content, never more than one per id, none invented
-       /\ \A i \in 1..Len(ids) : (ids[i].vis => Count(ids[i].name) = 1) /\ Count(ids[i].name) <= 1
+       \* (stated for multisets, so that documents with repeated ids are covered too)
+       /\ \A i \in 1..Len(ids) :
+             LET nm == ids[i].name
+                 nvis == Cardinality({j \in 1..Len(ids) : ids[j].name = nm /\ ids[j].vis})
+                 nall == Cardinality({j \in 1..Len(ids) : ids[j].name = nm}) IN
+             nvis <= Count(nm) /\ Count(nm) <= nall
        /\ \A j \in 1..Len(ms) : \E i \in 1..Len(ids) : ids[i].name = ms[j].name
        \* position: after all text preceding the element, not after its first visible character
        /\ tableFree => \A i \in 1..Len(ids) : \A j \in 1..Len(ms) :
-                           (ids[i].vis /\ ms[j].name = ids[i].name) => ms[j].before = ids[i].before
+                           (ids[i].vis /\ ms[j].name = ids[i].name
+                            /\ Cardinality({q \in 1..Len(ids) : ids[q].name = ids[i].name}) = 1) => ms[j].before = ids[i].before
        \* markers carry no width
        /\ \A i \in 1..Len(a.res.lines) : a.res.sw[i] = SumW(NoFrags(a.res.lines[i]))
   \* the text does not depend on the ids
   /\ Len(c.runs) >= 3 => SameResult(c.runs[2], c.runs[3])
+
+(* ---- C09: rich annotations mirror element nesting ---------------------------------------------- *)
+\* run 1: rich lines route; run 2 (optional): rich string route with the same configuration
+AnnOf(n) ==
+  CASE ~n.h -> <<>>
+    [] n.n \in {"em", "i", "ins", "dt"} -> << <<"E">> >>
+    [] n.n = "strong" -> << <<"S">> >>
+    [] n.n \in {"s", "del"} -> << <<"K">> >>
+    [] n.n = "code" -> << <<"C">> >>
+    \* (a link without any content is not rendered as a link)
+    [] n.n = "a" /\ HasAttr(n, "href") /\ NonWs(FlowText(n)) # <<>> -> << <<"L", n.a.href.s>> >>
+    [] n.n = "sup" -> << <<"D">> >>
+    [] OTHER -> <<>>
+\* letters of V(d) paired with the annotation vector of their ancestors (outermost first) and the
+\* "inside <pre>" flag: sequence of <<code, tags, inpre>>
+RECURSIVE AnnLetters(_, _, _)
+AnnLettersSeq(ns, anc, pre) == Concat([i \in 1..Len(ns) |-> AnnLetters(ns[i], anc, pre)])
+AnnLetters(n, anc, pre) ==
+  IF n.k = "t" THEN LET ls == Letters(n.s) IN [i \in 1..Len(ls) |-> <<ls[i], anc, pre>>]
+  ELSE IF n.k # "e" \/ Ignored(n) THEN <<>>
+  ELSE IF IsHtml(n, "img")
+       THEN (IF ImgVisible(n) THEN LET ls == Letters(n.a.alt) IN [i \in 1..Len(ls) |-> <<ls[i], Append(anc, <<"I", n.a.src>>), pre>>] ELSE <<>>)
+  ELSE AnnLettersSeq(n.c, anc \o AnnOf(n), pre \/ IsHtml(n, "pre"))
+NoP(tags) == SelectSeq(tags, LAMBDA t : t[1] # "P")
+HasP(tags) == \E i \in 1..Len(tags) : tags[i][1] = "P"
+OutAnnLetters(res) ==
+  LET items == SelectSeq(Concat(res.lines), LAMBDA x : ~IsFrag(x) /\ IsLetterCode(x[1])) IN
+  [i \in 1..Len(items) |-> <<items[i][1], NoP(items[i][3]), HasP(items[i][3])>>]
+\* every annotation vector that some node of the document has (what prefixes, padding, borders and
+\* white space may carry)
+RECURSIVE AncVecs(_, _)
+AncVecsSeq(ns, anc) == UNION {AncVecs(ns[i], anc) : i \in 1..Len(ns)}
+AncVecs(n, anc) == IF n.k # "e" \/ Ignored(n) THEN {anc}
+                   ELSE IF IsHtml(n, "img") THEN {anc, Append(anc, <<"I", IF HasAttr(n, "src") THEN n.a.src ELSE "">>)}
+                   ELSE {anc, anc \o AnnOf(n)} \cup AncVecsSeq(n.c, anc \o AnnOf(n))
+IsRichLines(run) == run.route \in {"lines", "staged_lines"} /\ run.cfg.deco = "rich"
+P_C09(c) ==
+  ~IsRichLines(c.runs[1]) \/
+  LET a == c.runs[1]
+      dom == Dom1(c, a)
+      exp == AnnLettersSeq(dom, <<>>, FALSE)
+      obs == OutAnnLetters(a.res)
+      \* (the footnote block is tagged with the decorator's default annotation)
+      valid == {<<>>, << <<"D">> >>} \cup AncVecsSeq(dom, <<>>) IN
+  /\ IsOk(a) =>
+       /\ IF HasTable(dom) /\ ~CfgOf(a.cfg).raw THEN BagOf(obs) = BagOf(exp) ELSE obs = exp
+       \* no annotation leaks: whatever a cell carries is the vector of some node of the document
+       /\ \A i \in 1..Len(a.res.lines) : \A j \in 1..Len(a.res.lines[i]) :
+             LET x == a.res.lines[i][j] IN IsFrag(x) \/ NoP(x[3]) \in valid
+  /\ Len(c.runs) >= 2 =>
+       LET b == c.runs[2] IN
+       /\ a.res.k = b.res.k
+       /\ IsOk(a) => [i \in 1..Len(a.res.lines) |-> Plain(NoFrags(a.res.lines[i]))] = b.res.lines
+
+(* ---- C08: link footnotes are numbered consistently with their references ------------------------ *)
+\* rendered links of the document in order: a[href] with visible content; [href, endpos] where endpos
+\* is the number of letters of V(d) up to the end of the link
+RECURSIVE LinkInfo(_, _)
+LinkInfoSeq(ns, before) ==
+  FoldLeft(LAMBDA a, n : LET r == LinkInfo(n, a.before) IN [before |-> r.before, out |-> a.out \o r.out],
+           [before |-> before, out |-> <<>>], ns)
+LinkInfo(n, before) ==
+  IF n.k = "t" THEN [before |-> before + Len(Letters(n.s)), out |-> <<>>]
+  ELSE IF n.k # "e" \/ Ignored(n) THEN [before |-> before, out |-> <<>>]
+  ELSE IF IsHtml(n, "img") THEN [before |-> before + Len(Letters(FlowText(n))), out |-> <<>>]
+  ELSE LET inner == LinkInfoSeq(n.c, before) IN
+       IF IsHtml(n, "a") /\ HasAttr(n, "href") /\ NonWs(FlowText(n)) # <<>>
+       THEN [before |-> inner.before, out |-> << [href |-> n.a.href.c, endpos |-> inner.before] >> \o inner.out]
+       ELSE inner
+\* a textless link that still gets numbered because decoration pseudo-content fills it (known finding)
+DecoratedEmptyLink(dom, cf) ==
+  cf.decorate /\ LET ns == NodesSeq(dom) IN
+                 \E i \in 1..Len(ns) : IsHtml(ns[i], "a") /\ HasAttr(ns[i], "href") /\ NonWs(FlowText(ns[i])) = <<>>
+                                         /\ HasElem(ns[i].c, {"em", "strong", "code", "dt"})
+\* references "[k]" of a line: sequence of [k, at] (at = index of the opening bracket)
+RefsIn(codes) ==
+  LET opens == SelectSeq([i \in 1..Len(codes) |-> i], LAMBDA i : codes[i] = 91)
+      closeOf(i) == LET js == {j \in (i + 2)..Len(codes) : codes[j] = 93 /\ \A k \in (i + 1)..(j - 1) : codes[k] \in 48..57} IN
+                    IF js = {} THEN 0 ELSE CHOOSE j \in js : \A q \in js : j <= q
+      val(i) == FoldLeft(LAMBDA acc, k : acc * 10 + (codes[k] - 48), 0, [k \in 1..(closeOf(i) - i - 1) |-> i + k])
+      good == SelectSeq(opens, LAMBDA i : closeOf(i) # 0 /\ closeOf(i) - i - 1 <= 6)
+  IN [m \in 1..Len(good) |-> [k |-> val(good[m]), at |-> good[m]]]
+\* references of a sequence of lines, tolerating a reference that was hard-wrapped across two lines
+\* ("...[1" / "<prefix>2]"): returns [k, before] with before = letters preceding the reference
+DigitsAtEnd(codes) == LET idx == {i \in 0..Len(codes) : \A j \in (i + 1)..Len(codes) : codes[j] \in 48..57} IN
+                      SubSeq(codes, (CHOOSE i \in idx : \A q \in idx : i <= q) + 1, Len(codes))
+NumOf(ds) == FoldLeft(LAMBDA acc, d : acc * 10 + (d - 48), 0, ds)
+RefsOfLines(lines) ==
+  LET step(a, codes) ==
+        LET whole == RefsIn(codes)
+            \* completion of a reference opened on the previous line: first "]" with only digits between
+            \* it and the preceding non-digit
+            closeIdx == {j \in 1..Len(codes) : codes[j] = 93}
+            firstClose == IF closeIdx = {} THEN 0 ELSE CHOOSE j \in closeIdx : \A q \in closeIdx : j <= q
+            tailDigits == IF firstClose = 0 THEN <<>> ELSE DigitsAtEnd(SubSeq(codes, 1, firstClose - 1))
+            completes == a.open /\ firstClose # 0 /\ (\A m \in 1..Len(whole) : whole[m].at > firstClose)
+                         /\ Len(a.part) + Len(tailDigits) >= 1
+            lettersUpTo(i) == Len(SelectSeq(SubSeq(codes, 1, i), IsLetterCode))
+            found0 == IF completes THEN << [k |-> NumOf(a.part \o tailDigits), before |-> a.openBefore] >> ELSE <<>>
+            found1 == [m \in 1..Len(whole) |-> [k |-> whole[m].k, before |-> a.letters + lettersUpTo(whole[m].at)]]
+            \* a reference left open at the end of this line: "[" followed only by digits
+            ends == DigitsAtEnd(codes)
+            opensAt == Len(codes) - Len(ends)
+            opens == opensAt >= 1 /\ codes[opensAt] = 91 /\ Len(ends) <= 6
+        IN [refs |-> a.refs \o found0 \o found1, letters |-> a.letters + lettersUpTo(Len(codes)),
+            open |-> opens, part |-> IF opens THEN ends ELSE <<>>,
+            openBefore |-> IF opens THEN a.letters + lettersUpTo(opensAt) ELSE 0,
+            \* an opened reference that the next line did not complete: cut into three or more pieces
+            unmatched |-> a.unmatched + (IF a.open /\ ~completes THEN 1 ELSE 0)]
+      fin == FoldLeft(step, [refs |-> <<>>, letters |-> 0, open |-> FALSE, part |-> <<>>, openBefore |-> 0, unmatched |-> 0], lines)
+  IN [refs |-> fin.refs, unmatched |-> fin.unmatched + (IF fin.open THEN 1 ELSE 0)]
+P_C08(c) ==
+  \A ri \in 1..Len(c.runs) :
+    LET run == c.runs[ri]
+        dom == Dom1(c, run)
+        cf == Cf(run.cfg)
+        links == LinkInfoSeq(dom, 0).out
+        n == Len(links)
+        \* expected footnote block, laid out by the specification's fmt_links
+        blk == IF cf.footnotes /\ n > 0
+               THEN FoldLeft(LAMBDA r, k : FmtLink(r, Footnote(k, links[k].href), <<>>, cf), NewSub(run.w, <<>>), [k \in 1..n |-> k]).lines
+               ELSE <<>>
+        nb == Len(blk)
+        outl == [i \in 1..Len(run.res.lines) |-> Plain(NoFrags(run.res.lines[i]))]
+        nbody == Len(outl) - nb
+        body == SubSeq(outl, 1, nbody)
+        \* (combining strike marks may sit between the characters of a reference inside <s>/<del>)
+        NoStrike(ln) == SelectSeq(Codes(ln), LAMBDA k : k # STRIKE)
+        parsed == RefsOfLines([i \in 1..nbody |-> NoStrike(body[i])])
+        refs == parsed.refs
+    IN (IsOk(run) /\ run.w >= 1) =>
+       IF ~cf.footnotes
+       THEN RefsOfLines([i \in 1..Len(outl) |-> SelectSeq(Codes(outl[i]), LAMBDA k : k # STRIKE)]).refs = <<>>
+       ELSE /\ nbody >= 0
+            \* the block: exactly the n entries, in order, after a blank line
+            /\ [i \in 1..nb |-> Plain(blk[i].c)] = SubSeq(outl, nbody + 1, Len(outl))
+            /\ (nb > 0 /\ nbody > 0) => outl[nbody] = <<>>
+            \* the references in the text are 1..n, each once, in increasing order of appearance
+            \* (per cell inside side-by-side tables: only the multiset is checked there)
+            \* (inside side-by-side cells a reference may be cut by the cell boundary, so there only:
+            \*  every complete reference is one of 1..n and none occurs twice)
+            /\ IF HasTable(dom) /\ ~cf.raw
+               THEN /\ \A i \in 1..Len(refs) : refs[i].k \in 1..n
+                    /\ \A i, j \in 1..Len(refs) : i # j => refs[i].k # refs[j].k
+               ELSE \* the readable references are increasing numbers of 1..n; one may be missing only for
+                    \* each reference that hard wrapping cut into three or more pieces
+                    /\ \A i \in 1..Len(refs) : refs[i].k \in 1..n
+                    /\ \A i \in 1..(Len(refs) - 1) : refs[i].k < refs[i + 1].k
+                    /\ n - Len(refs) <= parsed.unmatched
+                    \* and reference k follows the text of link k: no letter between the end of the link
+                    \* and its reference
+                    /\ \A i \in 1..Len(refs) : refs[i].before = links[refs[i].k].endpos
+
+(* ---- C07: lists, quotes, headings prefix every line; ordered items count from start ------------- *)
+\* run 1: a document holding exactly one block B (meta.kind, meta.start for ol) at width w;
+\* runs 2..: the content of each item of B as a stand-alone document at width w - prefix width
+P_C07(c) ==
+  "kind" \notin DOMAIN c.meta \/
+  LET a == c.runs[1]
+      ds == a.cfg.ds
+      kind == c.meta.kind
+      k == Len(c.runs) - 1
+      items == [i \in 1..k |-> c.runs[i + 1]]
+      allOk == IsOk(a) /\ \A i \in 1..k : IsOk(items[i])
+      pl(res) == [i \in 1..Len(res.lines) |-> Plain(NoFrags(res.lines[i]))]
+      start == MetaGet(c, "start", 1)
+      cfp == Cf(a.cfg)
+      olw == Max2(SumW(OlPrefix(cfp, start)), SumW(OlPrefix(cfp, start + Max2(k, 1) - 1)))
+      Prefixed(i) ==
+        LET ls == pl(items[i].res) IN
+        [j \in 1..Len(ls) |->
+           (CASE kind = "blockquote" -> ds.quote
+              [] kind = "dd" -> <<C2(32), C2(32)>>
+              [] kind \in {"h1", "h2", "h3", "h4", "h5", "h6"} -> ds.hdr[CHOOSE l \in 1..6 : kind = <<"h1", "h2", "h3", "h4", "h5", "h6">>[l]]
+              [] kind = "ul" -> IF j = 1 THEN ds.ul ELSE Rep(C2(32), SumW(ds.ul))
+              [] kind = "ol" -> IF j = 1 THEN LET p == OlPrefix(cfp, start + i - 1) IN p \o Rep(C2(32), olw - SumW(p))
+                                ELSE Rep(C2(32), olw)
+              [] OTHER -> <<>>) \o ls[j]]
+  IN allOk => pl(a.res) = Concat([i \in 1..k |-> Prefixed(i)])
 =============================================================================
